@@ -1118,38 +1118,45 @@ func (s *spanScreen) mergeIntoPreviousCell(text string) {
 	line := &s.lines[y]
 	cell := s.cursorPos.X - 1
 
-	// Find the span at cell position
-	idx, offset := findSpanAtX(line, cell)
-	if idx >= len(line.spans) {
+	// Find the span holding that cell and, inside it, the character covering
+	// the cell (the cell may be the second half of a wide character). The
+	// fragment is appended to that character's text; no span is split, so the
+	// row keeps its width.
+	pos := 0
+	for i := range line.spans {
+		sp := &line.spans[i]
+		if cell >= pos+sp.Width {
+			pos += sp.Width
+			continue
+		}
+		offset := cell - pos
+		if sp.Text == "" {
+			// Convert repeat to text
+			sp.Text = strings.Repeat(string(sp.Rune), sp.Width)
+		}
+		textBytes := []byte(sp.Text)
+		idx, start, end := 0, 0, 0
+		state := -1
+		for idx < len(textBytes) {
+			_, consumed, width, newState, ok := stepTextCluster(textBytes[idx:], state, s.textMode)
+			if !ok || consumed <= 0 {
+				break
+			}
+			idx += consumed
+			state = newState
+			if width > 0 {
+				start = end
+				end += width
+			}
+			if end > offset {
+				break
+			}
+		}
+		sp.Text = sp.Text[:idx] + text + sp.Text[idx:]
+		// Width doesn't change for merge
+		s.frontend.RegionChanged(Region{Y: y, Y2: y + 1, X: pos + start, X2: pos + end}, CRText)
 		return
 	}
-
-	sp := &line.spans[idx]
-
-	// If we're at an offset within the span, we need to split it first
-	if offset > 0 {
-		left, right, _ := splitSpan(*sp, offset, s.textMode)
-
-		// Update spans: replace current span with left and right
-		newSpans := make([]Span, 0, len(line.spans)+1)
-		newSpans = append(newSpans, line.spans[:idx]...)
-		newSpans = append(newSpans, left, right)
-		newSpans = append(newSpans, line.spans[idx+1:]...)
-		line.spans = newSpans
-
-		// Now the cell we want to merge into is at idx+1
-		idx++
-	}
-
-	// Convert repeat to text if needed and merge
-	sp = &line.spans[idx]
-	if sp.Text == "" {
-		sp.Text = strings.Repeat(string(sp.Rune), sp.Width)
-	}
-	sp.Text += text
-	// Width doesn't change for merge
-
-	s.frontend.RegionChanged(Region{Y: y, Y2: y + 1, X: cell, X2: cell + 1}, CRText)
 }
 
 func max(a, b int) int {
